@@ -408,6 +408,10 @@ func (c *fctx) runBlock(fr *frame, b *ssa.BasicBlock, incoming map[*ssa.BasicBlo
 				rets = append(rets, retInfo{cond: reach, st: cur, results: rs, pos: x.Pos()})
 				term = true
 			case *ssa.Panic:
+				if ct := c.P.ContractFor(c.fn); ct != nil && ct.MayPanic {
+					term = true
+					break
+				}
 				c.addObl(&Obligation{Name: fr.prefix + "safe:no-panic@" + c.lineKey(x.Pos(), fr), Kind: "safety", Guard: reach, Goal: "false", Pos: c.pos(x.Pos()), SrcLine: c.P.SrcLine(x.Pos())})
 				term = true
 			default:
